@@ -102,6 +102,7 @@ func (e *executableWorkflow) Execute(ctx context.Context, serializedInput any) (
 		callableFunctions: e.callableFunctions,
 		dag:               e.dag.Clone(),
 		runningSteps:      make(map[string]step.RunningStep, len(e.dag.ListNodes())),
+		completedSteps:    map[string]bool{},
 		outputDataChannel: make(chan outputDataType, 1),
 		outputDone:        false,
 		waitingOutputs:    outputNodes,
@@ -145,7 +146,7 @@ func (e *executableWorkflow) Execute(ctx context.Context, serializedInput any) (
 					waitingForInputText = " and is waiting for input"
 				}
 				e.logger.Debugf("Stage change for step %s to %s%s...", stepID, stage, waitingForInputText)
-				l.onStageComplete(stepID, previousStage, previousStageOutputID, previousStageOutput, wg)
+				l.onStageComplete(stepID, previousStage, previousStageOutputID, previousStageOutput, wg, false)
 			},
 			onStepComplete: func(
 				_ step.RunningStep,
@@ -159,7 +160,7 @@ func (e *executableWorkflow) Execute(ctx context.Context, serializedInput any) (
 				} else {
 					e.logger.Debugf("Step %s completed with stage '%s'...", stepID, previousStage)
 				}
-				l.onStageComplete(stepID, &previousStage, previousStageOutputID, previousStageOutput, wg)
+				l.onStageComplete(stepID, &previousStage, previousStageOutputID, previousStageOutput, wg, true)
 			},
 			onStepStageFailure: func(_ step.RunningStep, stage string, _ *sync.WaitGroup, err error) {
 				if err == nil {
@@ -319,6 +320,8 @@ type loopState struct {
 	cancel          context.CancelFunc
 	workflowContext map[string][]byte
 	lifecycles      map[string]step.Lifecycle[step.LifecycleStageWithSchema]
+	// completedSteps holds the steps whose completion notification has been processed by the run loop.
+	completedSteps map[string]bool
 }
 
 func (l *loopState) terminateAllSteps() {
@@ -388,6 +391,7 @@ func (l *loopState) onStageComplete(
 	previousStageOutputID *string,
 	previousStageOutput *any,
 	wg *sync.WaitGroup,
+	stepCompleted bool,
 ) {
 	l.lock.Lock()
 	defer func() {
@@ -396,6 +400,9 @@ func (l *loopState) onStageComplete(
 		}
 		l.lock.Unlock()
 	}()
+	if stepCompleted {
+		l.completedSteps[stepID] = true
+	}
 
 	if previousStage == nil {
 		return
@@ -645,7 +652,13 @@ type stateCounters struct {
 
 func (l *loopState) countStates() (counters stateCounters) {
 	for stepID, runningStep := range l.runningSteps {
-		switch runningStep.State() {
+		state := runningStep.State()
+		if state == step.RunningStepStateFinished && !l.completedSteps[stepID] {
+			// The step reports finished before its completion notification gets the run lock: until the
+			// run loop has processed that notification, what the step produced can still make nodes ready.
+			state = step.RunningStepStateRunning
+		}
+		switch state {
 		case step.RunningStepStateStarting:
 			counters.starting++
 			l.logger.Debugf("Step %s is currently starting.", stepID)
